@@ -91,9 +91,30 @@ def run(prop_id, tier, replay=None):
             C.DRIVER = os.path.join(scratch, "driver")
     # ---- 3: correspondence + oracles on the real code -----------------------------------
     results = []
+
+    def run_stream(stream, t):
+        """A stream that dies on an exception RAISED INSIDE THE LIBRARY (the harness drives it only through documented use)
+        is a finding about the library, reported with the traceback as its input; one that dies in the harness is an
+        infrastructure failure (exit 2) as before."""
+        try:
+            return stream(t)
+        except C.Infra:
+            raise
+        except Exception as e:
+            import traceback
+            tb = traceback.extract_tb(e.__traceback__)
+            lib = os.path.join(C.REPO, "lightstreamer_adapter")
+            if not tb or not os.path.abspath(tb[-1].filename).startswith(lib):
+                raise
+            from streams import Result
+            r = Result(getattr(stream, "__name__", "stream") + ":aborted")
+            r.violation("library-raised:" + type(e).__name__,
+                        "the library raised %s: %s where the harness, using it as documented, expects no exception" % (type(e).__name__, str(e)[:200]),
+                        {"traceback": ["%s:%d %s" % (os.path.relpath(f.filename, C.REPO) if f.filename.startswith(C.REPO) else os.path.basename(f.filename), f.lineno, f.name) for f in tb[-8:]]})
+            return r
     try:
         for stream in P["streams"]:
-            results.append(stream(tier))
+            results.append(run_stream(stream, tier))
         for r in results:
             for m in r.mismatches[:20]:
                 out.broken.append({"kind": "correspondence", "name": r.name, "detail": m})
@@ -101,7 +122,7 @@ def run(prop_id, tier, replay=None):
         # ---- 4: search ------------------------------------------------------------------
         if out.broken and not out.violations:
             for stream in P.get("search", P["streams"]):
-                r = stream("search")
+                r = run_stream(stream, "search")
                 results.append(r)
                 out.violations += r.violations
                 if out.violations:
